@@ -40,6 +40,9 @@ class SendPdu(PbMessageWrapper):
             pdu = bytes(packet[Dot15d4])
         elif Dot15d4FCS in packet:
             pdu = bytes(packet[Dot15d4FCS])[:-2]
+        elif Dot15d4Raw in packet:
+            # Frame given as raw bytes (see Dot15d4 connector's send_mac())
+            pdu = bytes(packet[Dot15d4Raw])
         else:
             return None
 
